@@ -1,15 +1,15 @@
 SPECIFICATION Spec
 CONSTANTS
-  MaxNodes = 4
+  MaxNodes = 3
   MaxLines = 2
   MaxCols = 8
-  AllowZero = TRUE
-  AllowNoSep = TRUE
-  AllowWrap = FALSE
+  AllowZero = FALSE
+  AllowNoSep = FALSE
+  AllowWrap = TRUE
   WarmModes <- MCWarmAll
   GapAlpha <- MCGapAlpha
-  RichAlpha <- MCRichAlpha
-  InsAlpha <- MCInsAlpha
+  RichAlpha <- MCRichAlpha5
+  InsAlpha <- MCInsAlpha5
 CHECK_DEADLOCK FALSE
 INVARIANT OnText
 INVARIANT LawBefore
